@@ -23,7 +23,7 @@ pub struct Case {
     pub home: String,
 }
 
-const LITERALS: &[&str] = &["ab", "a\\ b", "\\*", "*", "?", "[ab]", "*.txt", ".", "-", "=", "x=y", "/", "dir/", "d*/c*", ".d*/*", ".[a-z]*/?*", "d*/*", ".*", "[x]", "\\[x\\]", "sp*", "%", "nomatch*"];
+const LITERALS: &[&str] = &["ab", "a\\ b", "\\*", "*", "?", "[ab]", "*.txt", ".", "-", "=", "x=y", "/", "dir/", "d*/c*", ".d*/*", ".[a-z]*/?*", ".*", "[x]", "\\[x\\]", "sp*", "%", "nomatch*"];
 const SQUOTED: &[&str] = &["'a b'", "''", "'*'", "' '", "'$m'"];
 const DQUOTED: &[&str] = &["\"a b\"", "\"\"", "\"$m\"", "\"x$e\"", "\"$s\"", "\" \"", "\"*\"", "\"$g\"", "\"${u:-d e}\"", "\"$n\""];
 const PARAMS: &[&str] = &["$e", "$s", "$m", "$g", "$q", "$n", "$u", "${m}", "${s}", "$1", "$2", "$3", "${#m}", "$#"];
